@@ -27,8 +27,10 @@ class GeckoUnhandledProtocolHandler(GeckoUdpProtocolHandler):
             if protocol.queue.head is not None:
                 # First time we see this, we mark the queue
                 protocol.queue.mark()
-                # Allow the rest of the tasks to operate
-                await asyncio.sleep(GeckoConstants.ASYNCIO_SLEEP_TIMEOUT_FOR_YIELD)
+                # Allow the rest of the tasks to operate. They poll the queue head once
+                # per yield interval, so wait two intervals to be sure that each of them
+                # has looked at this datagram before it is declared unhandled
+                await asyncio.sleep(GeckoConstants.ASYNCIO_SLEEP_TIMEOUT_FOR_YIELD * 2)
                 # If we get here then no one processed the datagram
                 # so we can remove it and moan about it
                 if protocol.queue.is_marked:
